@@ -1363,6 +1363,34 @@ func (c *Ctx) beforeHandledHonoured(rule string) {
 				}
 			}
 			r.Check(used, rule, FuncName(fn), "FireBefore("+c.EventName(f.Event)+").handled", posf(c, f.Call), "looked at", "the handled result of the Before event is dropped: a handler that already answered the request does not end it")
+			// … and it ends the request at once: with handled==true (and no error) no
+			// further event is fired and nothing is written — a second set of handlers
+			// answering a request that was already answered (the 2FA hand-over after
+			// lock's refusal) tells the two outcomes apart
+			if used && f.Handled != nil {
+				self := f.Call.(ssa.Instruction)
+				assume := map[ssa.Value]bool{f.Handled: true}
+				nonNil := map[ssa.Value]bool{}
+				q := PathQuery{From: self, Assume: assume, NonNil: nonNil, Prune: func(a, b *ssa.BasicBlock) bool {
+					ef, ok := EdgeFact(a, b)
+					return ok && f.Err != nil && ef.SaysNotNil(f.Err)
+				}, Goal: func(i ssa.Instruction) bool {
+					if i == self {
+						return false
+					}
+					if call, ok := i.(ssa.CallInstruction); ok {
+						if _, isF := fireOf(call); isF {
+							return true
+						}
+					}
+					return c.clientVisible(i)
+				}}
+				if p := q.Find(); p != nil {
+					r.Bad(rule, FuncName(fn), "FireBefore("+c.EventName(f.Event)+") handled ⇒ stop", posf(c, p[len(p)-1]), "after a Before handler reported the request handled the function goes on to fire another event or to write to the client: handlers registered for what follows (the second-factor hand-over, the after-login bookkeeping) act on a request that was already answered", c.P.DescribePath(p)...)
+				} else {
+					r.Ok(rule, FuncName(fn), "FireBefore("+c.EventName(f.Event)+") handled ⇒ stop", posf(c, f.Call), "nothing is fired or written once a handler answered")
+				}
+			}
 		}
 	}
 	r.Check(n >= 10, rule, "all packages", "FireBefore sites", "-", sprintf("%d", n), sprintf("expected at least 10 FireBefore sites, found %d", n))
@@ -1891,4 +1919,146 @@ func (c *Ctx) storeBeforeSession(rule string) {
 	if n == 0 {
 		r.Unknown(rule, "ab", "session writes", "-", "no PutSession of the user identity found")
 	}
+}
+
+// zeroValueInvoke: a helper that hands back (value, thing, err) returns zero
+// values next to its error; a caller that goes on after the error — logout
+// tolerates "no current user" — must not use them. An interface method invoked
+// on a field of a struct that is the zero value on the path walked (the
+// logger inside a zero FmtLogger), or a FmtLogger method called on such a
+// struct, panics before the handler has done its work.
+func (c *Ctx) zeroValueInvoke(rule string, only func(*ssa.Function) bool) {
+	r := c.R
+	isZeroStruct := func(v ssa.Value) bool {
+		k, ok := v.(*ssa.Const)
+		if !ok || k.Value != nil {
+			return false
+		}
+		_, isS := k.Type().Underlying().(*types.Struct)
+		return isS
+	}
+	hasZeroOperand := func(v ssa.Value) bool {
+		phi, ok := v.(*ssa.Phi)
+		if !ok {
+			return false
+		}
+		for _, e := range phi.Edges {
+			if isZeroStruct(e) {
+				return true
+			}
+		}
+		return false
+	}
+	n := 0
+	for _, fn := range c.P.Funcs {
+		if !c.inRepo(fn) || strings.HasSuffix(pkgOf(fn), "/mocks") || (only != nil && !only(fn)) || len(fn.Blocks) == 0 {
+			continue
+		}
+		for _, call := range Calls(fn) {
+			cc := call.Common()
+			var subject ssa.Value
+			what := ""
+			if cc.IsInvoke() {
+				if f, ok := cc.Value.(*ssa.Field); ok && hasZeroOperand(f.X) {
+					subject, what = f.X, "invokes "+cc.Method.Name()+" on a field of"
+				}
+			} else if g := StaticCallee(call); g != nil && len(cc.Args) > 0 && strings.HasPrefix(FuncName(g), "(ab.FmtLogger).") && hasZeroOperand(cc.Args[0]) {
+				subject, what = cc.Args[0], "calls "+FuncName(g)+" on"
+			}
+			if subject == nil {
+				continue
+			}
+			n++
+			at := call.(ssa.Instruction)
+			q := PathQuery{StartBlock: fn.Blocks[0], GoalP: func(in ssa.Instruction, pv PathView) bool {
+				if in != at {
+					return false
+				}
+				if !pv.Precise() {
+					return true
+				}
+				return isZeroStruct(pv.Resolve(subject))
+			}}
+			if p := q.Find(); p != nil {
+				r.Bad(rule, FuncName(fn), "use of a zero "+subject.Type().String(), posf(c, call), "the handler "+what+" a struct that is its zero value on a path that reaches this point (what a helper hands back next to its error): the nil inside it panics, and the request ends before the handler's work — deleting the session, saving the user — is done", c.P.DescribePath(p)...)
+			} else {
+				r.Ok(rule, FuncName(fn), "use of a zero "+subject.Type().String(), posf(c, call), "not reached with the zero value")
+			}
+		}
+	}
+	r.Extra["zero_value_candidates"] = n
+}
+
+// assertAfterErrCheck: a plain type assertion (`x.(T)`, which panics on a nil
+// interface) of what a storage call returned is made only where that call's
+// error is known to be nil: `return abUser.(User), err` hands a load failure
+// to the runtime as a panic instead of to the caller as an error.
+func (c *Ctx) assertAfterErrCheck(rule string) {
+	r := c.R
+	n := 0
+	for _, fn := range c.P.Funcs {
+		if !c.inRepo(fn) || strings.HasSuffix(pkgOf(fn), "/mocks") {
+			continue
+		}
+		for _, b := range fn.Blocks {
+			for _, in := range b.Instrs {
+				ta, ok := in.(*ssa.TypeAssert)
+				if !ok || ta.CommaOk {
+					continue
+				}
+				// the backend calls whose first result can be what is asserted
+				var calls []ssa.CallInstruction
+				seen := map[ssa.Value]bool{}
+				var walk func(v ssa.Value, d int)
+				walk = func(v ssa.Value, d int) {
+					if v == nil || d > 6 || seen[v] {
+						return
+					}
+					seen[v] = true
+					switch x := v.(type) {
+					case *ssa.Phi:
+						for _, e := range x.Edges {
+							walk(e, d+1)
+						}
+					case *ssa.Extract:
+						if x.Index == 0 {
+							if call, ok := x.Tuple.(*ssa.Call); ok {
+								if _, isB := isBackendCall(call); isB && ErrResult(call) != nil {
+									calls = append(calls, call)
+								}
+							}
+						}
+					case *ssa.ChangeInterface:
+						walk(x.X, d+1)
+					}
+				}
+				walk(ta.X, 0)
+				if len(calls) == 0 {
+					continue
+				}
+				n++
+				okAll := true
+				var badCall ssa.CallInstruction
+				for _, call := range calls {
+					e := ErrResult(call)
+					if HoldsAt(ta, func(f Fact) bool { return f.SaysNil(e) || f.SaysNotNil(ta.X) }) {
+						continue
+					}
+					// the error may reach its test merged with others: no path from the
+					// call's failing outcome reaches the assertion
+					q := PathQuery{From: call.(ssa.Instruction), NonNil: map[ssa.Value]bool{e: true}, Goal: func(i ssa.Instruction) bool { return i == ssa.Instruction(ta) }}
+					if q.Find() == nil {
+						continue
+					}
+					okAll, badCall = false, call
+				}
+				if okAll {
+					r.Ok(rule, FuncName(fn), "assertion of a loaded value", posf(c, ta), "made only after the load's error was found nil")
+				} else {
+					r.Bad(rule, FuncName(fn), "assertion of a loaded value", posf(c, ta), "the result of "+Callee(badCall)+" ("+posf(c, badCall)+") is type-asserted without its error having been checked: when the backend fails the value is nil and the assertion panics instead of the error being returned")
+				}
+			}
+		}
+	}
+	r.Extra["asserts_on_loaded_values"] = n
 }
